@@ -423,6 +423,34 @@ def check_tree(sh, e, rng, seedtag):
                     law('replace-ill-formed', 'ExprAff', 'destination-by-slice/w%d' % W, '%r replacing the destination of %s by %s' % (exn, e, sl))
                 except Exception as exn:
                     law('replace-raises:%s' % type(exn).__name__, 'ExprAff', 'destination-by-slice/w%d' % W, '%r replacing the destination of %s by %s' % (exn, e, sl))
+    # --- maps whose values are themselves keys (an exchange, a rotation, a chain): substitution is simultaneous, a replaced
+    # term is not looked up again
+    leafs = [ck for ck in sorted(subs) if subs[ck].__class__.__name__ in ('ExprId', 'ExprInt')]
+    by_w = {}
+    for ck in leafs:
+        by_w.setdefault(irsem.width(subs[ck]), []).append(ck)
+    for w_, cks in sorted(by_w.items()):
+        if len(cks) < 2 or (is_aff and any(exprgen.canon(e.dst) == ck for ck in cks[:3])):
+            continue
+        a_, b_ = cks[0], cks[1]
+        maps = [('exchange', {a_: subs[b_], b_: subs[a_]})]
+        fresh = ex.ExprOp('+', ex.ExprId('z_fresh%d' % w_, w_), exprgen.Int(0x2b & irsem.mask(w_), w_)) if w_ > 1 else ex.ExprId('z_fresh1', 1)
+        maps.append(('chain', {a_: subs[b_], b_: fresh}))
+        if len(cks) >= 3:
+            c_ = cks[2]
+            maps.append(('rotation', {a_: subs[b_], b_: subs[c_], c_: subs[a_]}))
+        for mname, mp in maps:
+            sh.case(('replace-map', c, mname, w_), cls='replace-map:%s' % mname)
+            try:
+                got = e.replace_expr(dict((exprgen.fresh_copy(subs[k_]), exprgen.fresh_copy(v_)) for k_, v_ in mp.items()))
+            except Exception as exn:
+                law('replace-raises:%s' % type(exn).__name__, top, 'map-' + mname, '%r on %s' % (exn, e))
+                continue
+            want = ref_subst(e, mp)
+            if exprgen.canon(got) != exprgen.canon(want):
+                law('replace-structure', top, 'map-whose-values-are-keys/' + mname, 'replacing %s in %s gives %s, simultaneous substitution gives %s' % (
+                    ', '.join('%s -> %s' % (subs[k_], v_) for k_, v_ in mp.items()), e, got, want))
+        break
     # --- canonize preserves the value
     if not is_aff:
         sh.case(('canonize', c))
